@@ -44,7 +44,12 @@ func genC18(seed uint64, run int, tier string) Scenario {
 	text := func() []peer.Tok {
 		var t []peer.Tok
 		for i := between(r, 1, 3); i > 0; i-- {
-			s := word(r, lower+" ", 0, 8) + pick(r, c18Words...) + word(r, lower+" ", 0, 8)
+			w := pick(r, c18Words...)
+			if r.IntN(3) == 0 {
+				// the device spells the word in another case than the vocabulary does
+				w = pick(r, strings.ToLower(w), strings.ToUpper(w))
+			}
+			s := word(r, lower+" ", 0, 8) + w + word(r, lower+" ", 0, 8)
 			if r.IntN(3) == 0 {
 				s += " " + pick(r, c18Words...)
 			}
